@@ -316,6 +316,34 @@ theorem IsChain.consecutive {s e : Bytes} {ts : List Task} (h : IsChain s e ts) 
       obtain ⟨_, _, _, h4⟩ := h
       exact ⟨h4.head_s.symm, ih h4⟩
 
+theorem IsChain.each_nonempty {s e : Bytes} {ts : List Task} (hc : IsChain s e ts) :
+    ∀ t ∈ ts, t.e = [] ∨ Bytes.lt t.s t.e = true := by
+  induction ts generalizing s with
+  | nil => exact hc.elim
+  | cons t r ih =>
+    cases r with
+    | nil =>
+      obtain ⟨h1, h2, h3⟩ := hc
+      intro u hu; simp only [List.mem_singleton] at hu; subst hu; rw [h1, h2]; exact h3
+    | cons t' r =>
+      obtain ⟨h1, _, h3, h4⟩ := hc
+      intro u hu
+      rcases List.mem_cons.mp hu with rfl | hm
+      · rw [h1]; exact .inr h3
+      · exact ih h4 u hm
+
+theorem IsChain.getLast_e {s e : Bytes} {ts : List Task} (hc : IsChain s e ts) :
+    ∀ t, ts.getLast? = some t → t.e = e := by
+  induction ts generalizing s with
+  | nil => exact hc.elim
+  | cons a r ih =>
+    cases r with
+    | nil => intro t ht; simp at ht; subst ht; exact hc.2.1
+    | cons t' r =>
+      intro t ht
+      rw [List.getLast?_cons_cons] at ht
+      exact ih hc.2.2.2 t ht
+
 theorem IsChain.append {s m e : Bytes} {a b : List Task} (ha : IsChain s m a) (hm : m ≠ []) (hb : IsChain m e b) :
     IsChain s e (a ++ b) := by
   induction a generalizing s with
@@ -682,5 +710,89 @@ theorem resolveLoop_final (layouts : Nat → Layout) (retry : Nat → Bool) (max
 theorem inv_init (pop0 : List Lock) (hs : Sorted pop0) (maxV : Nat) (s e : Bytes) :
     Inv pop0 maxV s e s ⟨[], pop0, [], 0⟩ :=
   ⟨hs, fun _ h => h, le_refl s, fun l hl => .inr ⟨hl.1, hl.2.2.1⟩, by simp, fun l hl hn => absurd hl hn⟩
+
+
+/-! ## termination under a layout that no longer changes -/
+
+theorem regionEnd_mem (l : Layout) (key : Bytes) : regionEnd l key = [] ∨ regionEnd l key ∈ l := by
+  induction l with
+  | nil => simp [regionEnd]
+  | cons p ps ih =>
+    simp only [regionEnd]
+    split
+    · exact .inr (by simp)
+    · rcases ih with h | h
+      · exact .inl h
+      · exact .inr (List.mem_cons_of_mem _ h)
+
+theorem batchEnd_mem (l : Layout) (n : Nat) (key : Bytes) : batchEnd l n key = [] ∨ batchEnd l n key ∈ l := by
+  induction n generalizing key with
+  | zero => exact regionEnd_mem l key
+  | succ n ih =>
+    simp only [batchEnd]
+    split
+    · exact .inl rfl
+    · exact ih _
+
+theorem filter_length_le {α : Type} (p q : α → Bool) (l : List α) (himp : ∀ x, p x = true → q x = true) :
+    (l.filter p).length ≤ (l.filter q).length := by
+  induction l with
+  | nil => simp
+  | cons a as ih =>
+    simp only [List.filter_cons]
+    cases hp : p a with
+    | true => simp [himp a hp]; exact ih
+    | false =>
+      cases hq : q a with
+      | true => simp; omega
+      | false => simp; exact ih
+
+theorem filter_length_lt {α : Type} (p q : α → Bool) (l : List α) (himp : ∀ x, p x = true → q x = true)
+    (x : α) (hx : x ∈ l) (hq : q x = true) (hp : p x = false) :
+    (l.filter p).length < (l.filter q).length := by
+  induction l with
+  | nil => cases hx
+  | cons a as ih =>
+    simp only [List.filter_cons]
+    rcases List.mem_cons.mp hx with e | hm
+    · subst e
+      simp only [hp, hq, if_true, List.length_cons]
+      have := filter_length_le p q as himp
+      simp; omega
+    · have := ih hm
+      cases hpa : p a with
+      | true => simp [himp a hpa]; exact this
+      | false =>
+        cases hqa : q a with
+        | true => simp; omega
+        | false => simp; exact this
+
+/-- number of split points in front of the cursor -/
+def ahead (l : Layout) (key : Bytes) : Nat := (l.filter (fun p => Bytes.lt key p)).length
+
+theorem ahead_lt (l : Layout) (key key' : Bytes) (hm : key' ∈ l) (hlt : Bytes.lt key key' = true) :
+    ahead l key' < ahead l key := by
+  unfold ahead
+  exact filter_length_lt _ _ l (fun x hx => lt_trans hlt hx) key' hm hlt (lt_irrefl key')
+
+theorem splitLoop_static_terminates (l : Layout) (next : Nat → Bytes → Bytes)
+    (hnext : ∀ i k, next i k = [] ∨ (next i k ∈ l ∧ Bytes.lt k (next i k) = true))
+    (e : Bytes) (fuel i : Nat) (key : Bytes) (hf : ahead l key < fuel) :
+    (splitLoop next e fuel i key).2 = true := by
+  induction fuel generalizing i key with
+  | zero => omega
+  | succ fuel ih =>
+    simp only [splitLoop]
+    split
+    · rfl
+    · rename_i hlast
+      simp only [Bool.or_eq_true, List.isEmpty_iff, not_or] at hlast
+      rcases hnext i key with h | ⟨h1, h2⟩
+      · exact absurd h hlast.1
+      · have := ahead_lt l key (next i key) h1 h2
+        exact ih (i + 1) (next i key) (by omega)
+
+theorem ahead_le_length (l : Layout) (key : Bytes) : ahead l key ≤ l.length := by
+  unfold ahead; exact List.length_filter_le _ _
 
 end CGV.RangeTask
